@@ -88,7 +88,24 @@ func c07Exec(c *mon.Case) {
 	}
 	key := v.T + ">" + T
 	if T == "N" {
-		c.Unspecified("target type Null")
+		// whether Null is an admissible target is left open; but a successful conversion must deliver a Null
+		// value, and a fresh one (modifying it must not show in later conversions)
+		if err == nil {
+			if s := snap(res); s.T != "N" {
+				c.Failf(mgr+" Convert succeeds with a value of another type than requested", "%s -> %s", desc, s)
+				return
+			}
+			if res != in {
+				res.SetAsInteger(42)
+			}
+			var r2 *variants.Variant
+			var e2 error
+			if p := mon.Try(func() { r2, e2 = ops.Convert(v.Variant(), variants.Null) }); p != nil || e2 != nil || snap(r2).T != "N" {
+				c.Failf(mgr+" Convert to Null hands out a shared value", "%s, result modified by the caller, then again -> %v (%v)", desc, snap(r2), e2)
+				return
+			}
+		}
+		c.Unspecified("target type Null (admissibility)")
 		return
 	}
 	if mgr == "safe" {
@@ -115,6 +132,18 @@ func c07Exec(c *mon.Case) {
 	}
 	if got.T != T {
 		c.Failf(mgr+" Convert succeeds with a value of another type than requested", "%s -> %s", desc, got)
+		return
+	}
+	// numeric widenings have an exact meaning in the host language
+	wide := map[string]Val{}
+	switch v.T {
+	case "I", "L":
+		wide["L"], wide["F"], wide["D"] = vLong(v.Long()), vFloat(float32(v.Long())), vDouble(float64(v.Long()))
+	case "F":
+		wide["D"] = vDouble(float64(v.Float()))
+	}
+	if w, ok := wide[T]; ok && !(v.T == "L" && T == "L") && !sameValue(got, w) && !(got.T == "D" && w.T == "D" && sameFloat(got.Double(), w.Double())) {
+		c.Failf("numeric widening "+typeNames[v.T]+" -> "+typeNames[T]+" does not deliver the correctly rounded value", "%s -> %s, expected %s", desc, got, w)
 		return
 	}
 	c.NonTrivial()
